@@ -39,7 +39,7 @@ define_ops! {
 }
 
 dispatch_widths!(dispatch, call, Op;
-    0, 1, 2, 3, 4, 5, 6, 7, 8, 9, 10, 12, 16, 32, 63, 64, 65, 96, 127, 128, 129, 191, 192, 193, 255, 256, 257, 319, 320, 321, 383, 384, 385, 447, 448, 449, 511, 512, 513, 575, 576, 577, 639, 640, 641, 703, 704, 705, 767, 768, 769, 831, 832, 833, 895, 896, 897, 959, 960, 961, 1023, 1024);
+    0, 1, 2, 3, 4, 5, 6, 7, 8, 9, 10, 12, 16, 32, 63, 64, 65, 96, 127, 128, 129, 191, 192, 193, 255, 256, 257, 319, 320, 321, 383, 384, 385, 447, 448, 449, 511, 512, 513, 575, 576, 577, 639, 640, 641, 703, 704, 705, 767, 768, 769, 831, 832, 833, 895, 896, 897, 959, 960, 961, 1023, 1024, 1088, 1152, 1216, 1344);
 
 mod k {
     //! width-independent kernels
@@ -524,9 +524,10 @@ fn operands(m: &Limbs, rich: bool) -> Vec<Limbs> {
 
 fn c11(r: &Runner) {
     r.set_rule("for every N in 1..=16: moduli m = (low, middle..., top) with low in {1,3,2^63+1,2^64-1}, middle limbs all-0 / all-MAX / alternating, top in {1,2,2^62-2,2^62-1,2^62,2^63-2,2^63-1,2^63,2^63+1,2^64-1} (below, at and above both carry thresholds), and SHORT moduli with 1..N-1 significant limbs (all-ones, structureless, 2^62-based; 3 and 2^64-59 in one limb); N = 1: all odd m in [3,255] and the one-limb boundary alphabet; operands a, b from {0,1,2,m-1,m-2,m/2,R mod m,...} plus run-shaped limb patterns and one-limb perturbations of m, reduced below m; the full product a x b per modulus; algorithms::{mul_redc,square_redc} and Uint::{mul_redc,square_redc} at BITS in {64N, 64N-1, 64N-63}. inv is computed by the harness. SOLVED universe (N = 2..8): for each modulus (the above plus structureless limbs and the BN254 / BLS12-381 / 2^255-19 primes) and each odd first limb b0 of b, a is solved so that the accumulator after the first round is m + j*2^64 (largest quotient digit in the next round, intermediate result >= m), with 4 fills of the upper limbs of b (incl. all-zero), both operand orders; plus all pairs of ordinary-looking operands. Every case is non-trivial; the hook counters state how often the carry / final-subtraction paths were reached");
-    for n in 1..=16usize {
+    // N = 17, 18, 19, 21: limb counts above 16 that are not multiples of 4 (tails of unrolled loops)
+    for n in (1..=16usize).chain([17, 18, 19, 21]) {
         for bits in [64 * n, 64 * n - 1, 64 * n - 63] {
-            if bits == 0 {
+            if bits == 0 || (n > 16 && bits != 64 * n) {
                 continue;
             }
             if nlimbs(bits) != n {
